@@ -75,6 +75,9 @@ UNIT = {
          "wrap_pre": "impl core::ops::Div<Number> for Number {\n    type Output = Result<Number, EvalError>;\n", "wrap_post": "}\n"},
         fn("div"),
         fn("float_pow"), fn("pow"),
+        fn("rdiv", extra=[("replace", "Rational::from(", "Rational::from_q(", "R9")]),
+        fn("rational_from_number", extra=[("replace", "Rational::try_from(f).ok()", "rational_try_from_f64(f)", "R10"),
+                                               ("replace", "impl Fn() -> MachineStub + 'static", "StubGen", "R4")]),
         fn("round", extra=[("replace", "(*f).round()", "f64_round(f.0)", "R10")]),
         fn("floor", extra=["unwrap_or_else"]), fn("ceiling"), fn("truncate"),
         {"fn": "sign", "impl": r"impl Number", "file": F_FORMS, "emit_name": "Number_sign",
